@@ -14,7 +14,7 @@
  "functions": ["misc/create_inode.c:try_lseek_copy"],
  "assumes": ["NEEDS the hook in hooks-pending/tools.diff (loop contract on the while loop of try_lseek_copy)",
              "no contract is ENFORCED on try_lseek_copy (no frame obligations): harness CHECKs + the protocol monitor in the lseek stub and in the preconditions of copy_file_chunk's contract",
-             "lseek(2) is a stub: it returns -1 (errno = one positive code chosen by the harness; at most one call can fail in a run since every failure ends the loop) or an ARBITRARY position 0 <= p <= 2^63-1-65535 (no ordering between the positions is assumed); the upper limit keeps hole + blocksize - 1 inside off_t (host file-size limit)",
+             "lseek(2) is a stub: it returns -1 (errno = one positive code chosen by the harness; at most one call can fail in a run since every failure ends the loop) or an ARBITRARY position 0 <= p <= 2^62 (no ordering between the positions is assumed; results of different calls are independent: drawn from IN.choice[] at an index that the loop cut havocs); the upper limit keeps hole + blocksize - 1 and the 64 KiB stepping of copy_file_chunk inside off_t (host files smaller than 2^62 bytes)",
              "copy_file_chunk is replaced by a contract: arbitrary result, frame = the monitor registers; what it does with [start, end) is unit copy_file_chunk",
              "fs->blocksize is a power of two 1024..65536 (ext2fs_open2 / mke2fs)",
              "U/iter: the statement is proved for the iteration that starts in an arbitrary state satisfying the loop invariant (data >= 0, no extent pending, next SEEK_DATA starts at data, no failure so far), the invariant is proved inductive"],
@@ -53,7 +53,7 @@
 #include "create_inode.h"
 
 struct in_s {
-	long long choice[2];	/* what lseek reports (negative: failure) */
+	long long choice[8];	/* what lseek reports (negative: failure) */
 	long long size;		/* st_size */
 	unsigned int lg;	/* log2 of the block size */
 	int fd, err;
@@ -72,7 +72,7 @@ static struct struct_ext2_filsys *g_fs;
 static int g_fd;
 static char g_file_obj, g_buf_obj, g_zero_obj;
 
-#define SPEC_POS_MAX (0x7fffffffffffffffLL - 65535)
+#define SPEC_POS_MAX (1LL << 62)
 /* x is a multiple of the block size (64-bit) */
 #define SPEC_ALIGNED(x) (((((unsigned long long)(x)) >> g_lg) << g_lg) == (unsigned long long)(x))
 #define SPEC_BS (1ULL << g_lg)
@@ -90,7 +90,7 @@ static errcode_t copy_file_chunk(ext2_filsys fs, int fd, ext2_file_t e2_file, of
 
 off_t lseek(int fd, off_t offset, int whence)
 {
-	long long v = IN.choice[verif_g4 & 1];
+	long long v = IN.choice[verif_g4 & 7];
 	verif_g4++;
 	CHECK(fd == g_fd, "lseek: on the source file");
 	CHECK(whence == SEEK_DATA || whence == SEEK_HOLE, "lseek: only SEEK_DATA / SEEK_HOLE");
